@@ -29,6 +29,8 @@ use crate::seqhooks;
 use crate::Args;
 
 enum Out {
+    /// the adapter was polled once under one task and is handed to another task
+    Handoff(Async<'static, UnixStream>),
     Read(Vec<u8>, Async<'static, UnixStream>, bool),
     Wrote(Async<'static, UnixStream>, bool),
 }
@@ -83,6 +85,7 @@ struct St {
     writer_done: bool,
     rx_back: Option<Async<'static, UnixStream>>,
     tx_back: Option<Async<'static, UnixStream>>,
+    handoff: Option<Async<'static, UnixStream>>,
     io_err: Option<String>,
 }
 
@@ -109,13 +112,14 @@ fn run_one_inner(quick: bool, verbose: bool) -> Outcome {
     let mut out = Outcome::default();
     let grid: Vec<(usize, usize, usize)> = if quick { GRID.iter().copied().filter(|g| g.0 <= 5000 || g.1 >= 65536).collect() } else { GRID.to_vec() };
     let (len, wchunk, rbuf) = grid[explore::choose(grid.len() as u32, Kind::Free) as usize];
-    let reader_flavour = explore::choose(2, Kind::Free); // 0 AsyncRead, 1 readable()+read
+    // 0 AsyncRead, 1 readable()+read, 2 polled once under a first task, then handed to a second one
+    let reader_flavour = explore::choose(3, Kind::Free);
     let writer_flavour = explore::choose(3, Kind::Free); // 0 task (AsyncWrite), 1 raw peer, 2 task using writable()+write
     let pre_nb = explore::choose(2, Kind::Free) == 1;
     let end_into_inner = explore::choose(2, Kind::Free) == 1;
     out.decoded.push(format!(
         "len={len} wchunk={wchunk} rbuf={rbuf} reader={} writer={} pre_nonblocking={pre_nb} end={}",
-        ["AsyncRead", "readable()"][reader_flavour as usize],
+        ["AsyncRead", "readable()", "handoff"][reader_flavour as usize],
         ["task", "raw-peer", "writable()"][writer_flavour as usize],
         if end_into_inner { "into_inner" } else { "drop" }
     ));
@@ -127,6 +131,7 @@ fn run_one_inner(quick: bool, verbose: bool) -> Outcome {
     let (exec, sched): (_, Scheduler<Out>) = executor().expect("executor");
     let exec_token = handle
         .insert_source(exec, |o, _, st: &mut St| match o {
+            Out::Handoff(a) => st.handoff = Some(a),
             Out::Read(v, a, ok) => {
                 st.got = Some(v);
                 st.reader_done = true;
@@ -158,6 +163,7 @@ fn run_one_inner(quick: bool, verbose: bool) -> Outcome {
         writer_done: false,
         rx_back: None,
         tx_back: None,
+        handoff: None,
         io_err: None,
     };
     let mut rx_ad = Some(handle.adapt_io(rx_s).expect("adapt rx"));
@@ -179,9 +185,22 @@ fn run_one_inner(quick: bool, verbose: bool) -> Outcome {
     let mut transitions = 0u64;
     let depth = if quick { 4 } else { 5 };
 
+    let sched_probe = |rx: Async<'static, UnixStream>| {
+        sched
+            .schedule(async move {
+                let mut rx = rx;
+                {
+                    let fut = rx.readable();
+                    futures::pin_mut!(fut);
+                    let _ = futures::poll!(fut);
+                }
+                Out::Handoff(rx)
+            })
+            .expect("schedule probe");
+    };
     let sched_reader = |rx: Async<'static, UnixStream>| {
         let total = len;
-        let fl = reader_flavour;
+        let fl = if reader_flavour == 2 { 1 } else { reader_flavour };
         sched
             .schedule(async move {
                 let mut rx = rx;
@@ -286,7 +305,11 @@ fn run_one_inner(quick: bool, verbose: bool) -> Outcome {
         match op {
             b'R' => {
                 reader_scheduled = true;
-                sched_reader(rx_ad.take().unwrap());
+                if reader_flavour == 2 {
+                    sched_probe(rx_ad.take().unwrap());
+                } else {
+                    sched_reader(rx_ad.take().unwrap());
+                }
             }
             b'W' => {
                 if writer_flavour == 1 {
@@ -300,12 +323,19 @@ fn run_one_inner(quick: bool, verbose: bool) -> Outcome {
                 if let Err(e) = el.dispatch(Some(Duration::ZERO), &mut st) {
                     out.violations.push(viol("dispatch-error", &[], format!("dispatch failed: {e}")));
                 }
+                if let Some(a) = st.handoff.take() {
+                    sched_reader(a);
+                }
             }
         }
     }
     // ---- fair completion phase
     if !reader_scheduled {
-        sched_reader(rx_ad.take().unwrap());
+        if reader_flavour == 2 {
+            sched_probe(rx_ad.take().unwrap());
+        } else {
+            sched_reader(rx_ad.take().unwrap());
+        }
     }
     if writer_flavour != 1 && !writer_scheduled {
         sched_writer(tx_ad.take().unwrap(), data.clone());
@@ -333,6 +363,10 @@ fn run_one_inner(quick: bool, verbose: bool) -> Outcome {
             break;
         }
         let waits = seqhooks::take_waits();
+        if let Some(a) = st.handoff.take() {
+            sched_reader(a);
+            progressed = true;
+        }
         let blocked = waits.first().map(|w| w.would_block_forever).unwrap_or(false);
         progressed |= before != (st.reader_done, st.writer_done) || !blocked;
         if progressed {
